@@ -973,6 +973,8 @@ R9_RULES = [
             "({ let mut r9_any = false; let mut r9_k: usize = 0; while r9_k < $$e.len() && !r9_any { let $x = &$$e[r9_k]; if $$c { r9_any = true; } r9_k = r9_k + 1; } r9_any })"),
     ("R9i", "$$e . as_mut ( ) . and_then ( | $x | $x . pop_front ( ) )",
             "(match $$e.as_mut() { Some($x) => $x.pop_front(), None => None })"),
+    ("R9h2", "$$e . values ( ) . all ( $$f ) ;",
+            "let mut r9_n: usize = 0; let r9_len: usize = $$e.len(); let mut r9_all: bool = true; while r9_n < r9_len && r9_all { let r9_x = $$e.nth_value_mut(r9_n); r9_n = r9_n + 1; r9_all = $$f(r9_x); }"),
     ("R9h", "for $x in $$e . values ( ) {",
             "let mut r9_n: usize = 0; let r9_len: usize = $$e.len(); while r9_n < r9_len { let $x = $$e.nth_value_mut(r9_n); r9_n = r9_n + 1;"),
     ("R9r", "for ( $a , $b ) in $$e . iter_mut ( ) {",
